@@ -405,6 +405,16 @@ def relations(rng, tier, rpt):
                       (_B.Bip86, _B.Bip86Coins.BITCOIN), (_B.Cip1852, _B.Cip1852Coins.CARDANO_ICARUS), (_B.Bip44, _B.Bip44Coins.SOLANA)):
         wrappers.append(("%s[%s] account" % (cls.__name__, coin.name), (lambda cls=cls, coin=coin: cls.FromSeed(sd, coin).Purpose().Coin().Account(0)), b_priv,
                          b_pub if coin != _B.Bip44Coins.SOLANA else b_pub[:1]))
+    def mk_shelley():
+        acc = _B.Cip1852.FromSeed(sd, _B.Cip1852Coins.CARDANO_ICARUS).Purpose().Coin().Account(0)
+        sh = _B.CardanoShelley.FromCip1852Object(acc)
+        sh.verif_account = acc          # the object the caller converts: the Shelley wrapper holds it (and a staking object derived from it)
+        return sh
+    sh_priv = [("StakingObject().PrivateKey()", lambda o: o.StakingObject().PrivateKey().Raw().ToHex()), ("RewardObject().PrivateKey()", lambda o: o.RewardObject().PrivateKey().Raw().ToHex()),
+               ("Change(EXT).AddressIndex(0).PrivateKeys()", lambda o: o.Change(Bip44Changes.CHAIN_EXT).AddressIndex(0).PrivateKeys().AddressKey().Raw().ToHex())]
+    sh_pub = [("StakingObject().PublicKey().ToAddress()", lambda o: o.StakingObject().PublicKey().ToAddress()),
+              ("Change(EXT).AddressIndex(0).PublicKeys().ToAddress()", lambda o: o.Change(Bip44Changes.CHAIN_EXT).AddressIndex(0).PublicKeys().ToAddress())]
+    wrappers.append(("CardanoShelley", mk_shelley, sh_priv, sh_pub))
     for wname, mk, privs, pubs in wrappers:
         for used_before in (True, False):
             o = mk()
@@ -412,7 +422,7 @@ def relations(rng, tier, rpt):
             if used_before:
                 for _, f in privs + pubs:
                     run_(lambda: f(o))
-            o.Bip32Object().ConvertToPublic()
+            (o.verif_account if hasattr(o, "verif_account") else o).Bip32Object().ConvertToPublic()
             n_cv += 1
             for an, f in privs:
                 r = run_(lambda: f(o))
